@@ -203,3 +203,18 @@ MANIFEST_TEXT["C18"] = dict(engine="E-hist", design_ref="DESIGN.md §4 C18",
     technique="exhaustive exploration of map/drop/write/read histories on the real MemoryMap with the process address space (/proc/self/maps) and the file contents as oracle",
     level_text="All histories up to depth 3 (thorough 4-5) with up to 3 live maps over 10 file sizes from 0 bytes to many pages and both modes; every action followed by an address-space and content check.",
     level_note="Observes mappings through /proc/self/maps; failures other than the zero-length mapping (ENOMEM etc.) are not provoked.")
+
+PROPS["C09"] = dict(
+    driver="c09", builds=["rel", "dbg", "native"], level="exploration",
+    rule="E-input: every bit sequence of length <= N plus 9 multi-block representatives (up to 125 000 bits; long and short superblocks) as BitVector, SparseVector and RLVector - all three compared with the same reference, so they agree with "
+         "each other - with the argument set A(n) = {0, 1, n-1, n, n+1, 2n, 2^63, MAX-1, MAX} (plus every in-range value for the small ones) in EVERY argument position of rank, rank_zero (<= len), select, select_zero, select_iter, "
+         "select_zero_iter, predecessor, successor; Iterator::nth / nth_back(k) for k in A(remaining) on every iterator kind after 0, 1 and 2 consumed items (result, exact size hint afterwards, the next items); wavelet matrices over small "
+         "alphabets with A(.) x (present, absent, outside-the-alphabet values incl. u64::MAX) in every position of rank/select/select_iter/inverse_select/predecessor/successor/contains, and WMCore map_down/map_down_with/map_up_with over all "
+         "(index, value); constructors with widths {0,1,13,64,65,2^20,MAX}, SparseBuilder::new with ones > universe, RLBuilder::try_set with start+len overflowing. No call may panic. Distinct by hashed structure.",
+    bounds={"quick": "N=6; WM scopes (1,6) (2,4) (3,3) (4,2)", "thorough": "N=8; WM scopes (1,8) (2,5) (3,4) (4,3)"},
+    assumptions=[HOOK_ASSUMPTION, MODEL_ASSUMPTION, "documented 'may panic' cases (get(i >= len), with_len whose len*width overflows) are not checked; WMCore with values >= 2^width is only required not to panic"],
+)
+MANIFEST_TEXT["C09"] = dict(engine="E-input", design_ref="DESIGN.md §4 C09",
+    technique="bounded exhaustive input enumeration on the real code with the extreme-argument set A(.) in every argument position, against reference models, in three build configurations",
+    level_text="All structures up to 6/8 bits plus multi-block representatives x every argument position x A(.), including Iterator::nth/nth_back beyond the remainder and the core mapping for any (index, value); decided with overflow checks on (no panic) and off (same answers).",
+    level_note="Trusts the reference models; larger structures are represented by 9 instances only.")
